@@ -152,6 +152,22 @@ func (ev *Evaluator) Call(fn *ssa.Function, args []Val, free []Val, st *State) V
 				for i := 1; i < len(inPreds); i++ {
 					cur = iteState(rel[i], outSt[inPreds[i]], cur)
 				}
+				// objects created inside a loop survive its exit: carry them
+				// from the back-edge states of a header we are leaving
+				for _, p := range inPreds {
+					for _, q := range p.Preds {
+						if !isBackEdge(q, p) {
+							continue
+						}
+						if qs, done := outSt[q]; done {
+							for o, v := range qs.mem {
+								if _, have := cur.mem[o]; !have {
+									cur.mem[o] = v
+								}
+							}
+						}
+					}
+				}
 			}
 			if header && sweeps == 2 && sweep == 1 {
 				if muObj[b] == nil {
